@@ -2,13 +2,16 @@
 import contextlib, csv, io, itertools, json, math, os, pickle, re, shutil
 import common, extract, mpirun
 
-LEAN_MODULE = "ESRVerif.Props.C17"
+LEAN_MODULE = ["ESRVerif.Props.C17", "ESRVerif.Props.C17c"]
 LEVEL = "proof"
 LEVEL_TEXT = ("Lean theorems over the hand model of load_subs / simplify_inv_subs / get_all_dup: the quote insertion by four "
               "str.replace calls is lossless for every separator-free printed term (unbounded), rows are preserved for any "
               "rank count (via C14 tiling), every all_dup element is self-inverse, cancellation preserves the composition of "
               "chains of any length; sympy's printer/parser on the template table (4 parameters, |n| <= 6) is modelled and "
-              "tied by exhaustive correspondence")
+              "tied by exhaustive correspondence; the exception structure of load_subs' per-row conversion (time-limited or not, what a "
+              "TimeoutException handler restores the row from, the in-place writes) is regenerated and the conversion of a row is "
+              "proved atomic under a timeout unless it is restored from an alias of the list being rewritten; on the real code a "
+              "genuine SIGALRM is injected at every line of load_subs at which a time limit of the code under test is active")
 TECHNIQUE = "Lean 4 theorem over a model of the code + extracted tables + checked model/code correspondence"
 RULE = ("one evaluation = one template string compared, one cell loaded on one rank count, or one chain cancelled; "
         "distinct non-trivial = distinct (template string) with a non-identity value, distinct (file, P) with P>=2, "
@@ -18,7 +21,12 @@ EXPLANATION = ("load_dump / rows_preserved / dup_involutive / cancel_preserves p
                "re-evaluated), its load with the real load_subs on 1-5 ranks, its cancellation with the real "
                "simplify_inv_subs on all chains up to the bound; an independent oracle checks the property itself on the "
                "real outputs (objects equal, rows aligned, composition numerically unchanged), including the chains [d, d] and "
-               "[d, d, d] for every element d of the real get_all_dup(k), k <= 5 (a non-involutive element is a failing input)")
+               "[d, d, d] for every element d of the real get_all_dup(k), k <= 5 (a non-involutive element is a failing input); "
+               "C17c: loadRow_atomic / alias_restore_is_not_atomic over the regenerated exception structure of load_subs' row loop, and "
+               "a fault phase (harness/inject.py) that discovers at run time whether a time limit is active inside load_subs / "
+               "simplify_inv_subs / get_all_dup and, if so, delivers a genuine SIGALRM at every (line, occurrence <= 3) site, one or two "
+               "per call, on 1-5 ranks and both use_sympy modes: every row must come back as the written mapping or exactly as its "
+               "original text (time_limited_sites: 0 and a no-op on a tree without such a region)")
 TRUSTED = ["hand model ESRVerif/Model/Subs.lean of sympy's str() and sympify on the template language (tied by exhaustive "
            "correspondence for 4 parameters, |n| <= 6, rationals with denominator <= 4)",
            "ast.literal_eval and csv reader/writer modelled on the emitted language only (dict of single-quoted strings; "
@@ -41,7 +49,15 @@ TRUSTED = ["hand model ESRVerif/Model/Subs.lean of sympy's str() and sympify on 
            "translator's symbolic reading of load_subs' per-cell statements: the cell text is followed through `.replace` "
            "chains on the cell or on locals (row alias, enumerate, unrolled literal pairs), the nan test and literal_eval "
            "must be applied to the same fully quoted text, keys are sympified before values, `str == literal` is read as "
-           "symmetric; the read / split / scatter / gather / chain / bcast statements are matched up to renaming of locals"]
+           "symmetric; the read / split / scatter / gather / chain / bcast statements are matched up to renaming of locals",
+           "translator's reading of the exception structure of the row loop: `try` / `with time_limit(..)` around the per-cell loop "
+           "in either order, one `except TimeoutException` handler of prints and one `B[i] = name` / `row[:] = name` restore; a name "
+           "bound to list(row) / row[:] / row.copy() / copy.copy / copy.deepcopy / [x for x in row] BEFORE the try/with is a snapshot, "
+           "a name bound to the row itself is an alias; anything else is an ExtractError",
+           "harness/inject.py: a time limit of the code under test is active iff the SIGALRM handler is a Python function compiled "
+           "from the staged tree and ITIMER_REAL is pending (signal.alarm and ITIMER_REAL are one timer on Linux); self-tested on "
+           "every run against the staged time_limit; fault sites are lines x occurrence (<= 3, plus random later occurrences), not "
+           "bytecode offsets"]
 ASSUMPTIONS = ["real/rational semantics: -(-x)=x and 1/(1/x)=x for x != 0 (floating-point rounding not modelled)",
                "ranks are OS processes under the stand-in hub (pickle on every collective), not a real MPI progress engine"]
 # tables whose committed version may stand in as a hand-written model when the translator cannot read the source;
@@ -49,7 +65,10 @@ ASSUMPTIONS = ["real/rational semantics: -(-x)=x and 1/(1/x)=x for x != 0 (float
 FALLBACK = {'Subs': 'model executable vs real code on what the table claims: get_all_dup(k) for k = 0..5 list-equal to allDup k; real load_subs on '
                     '1-5 (deep: 8) ranks cell-for-cell equal to loadFile (replace sequence, nan literal, delimiter, rank blocks); real '
                     'simplify_inv_subs on all chains up to the bound; plus the oracle that every element of the real get_all_dup cancels '
-                    'soundly.  NOT covered by a dynamic tie and therefore kept strict: the template table of sympy_simplify'}
+                    'soundly; a genuine SIGALRM injected at every line of load_subs (simplify_inv_subs, get_all_dup) at which a time limit '
+                    'of the code under test is active at run time (sites discovered by harness/inject.py, none on a tree without such a '
+                    'region): every row read back after a timeout is the written mapping or exactly its original text.  NOT covered by a '
+                    'dynamic tie and therefore kept strict: the template table of sympy_simplify'}
 MODELLED = ["simplifier.py:get_all_dup", "simplifier.py:simplify_inv_subs", "simplifier.py:load_subs",
             "simplifier.py:convert_params"]
 
